@@ -66,6 +66,10 @@ Record case := mkCase {
   c_unsupported : list string;          (* keys reported as "... is not supported" *)
   c_probes : list (string * bool * probe) (* key, HasEntry(key), the four getters *) }.
 
+(* synthetic table exercising every validator of the specification package directly: one optional key per validator *)
+Definition validators_table (l : list (string * vkind)) : table :=
+  table_of (map (fun nk => mkSpec (fst nk) (snd nk) VNil true) l).
+
 Definition fs_of (readable : list string) : string -> bool :=
   fun s => existsb (String.eqb s) readable.
 
